@@ -221,20 +221,52 @@ def postSkeEcdh (v : Val) : Bool :=
   | .pair (.nat 3) _ => true
   | _ => false
 
+def tagOf : Val → Option Nat
+  | .pair (.nat t) _ => some t
+  | _ => none
+
+def tagsOf : Val → List (Option Nat)
+  | .cons h t => tagOf h :: tagsOf t
+  | _ => []
+
+def distinct : List (Option Nat) → Bool
+  | [] => true
+  | x :: xs => !xs.contains x && distinct xs
+
+def isTagged : Fmt → Bool
+  | .tagged _ _ => true
+  | _ => false
+
+def allItems (p : Val → Bool) : Val → Bool
+  | .cons h t => p h && allItems p t
+  | _ => true
+
+/-- `_reject_duplicate_extensions` (messages.py, called by the six parsers that read an extension
+    block): no extension type may occur twice in one block.  Walks the value along its format
+    and checks every repetition of tagged items. -/
+def noDupTags : Fmt → Nat → Val → Bool
+  | .pair f g, t, .pair v w => noDupTags f t v && noDupTags g t w
+  | .lenPref _ f, t, v => noDupTags f t v
+  | .many f, t, v => (!isTagged f || distinct (tagsOf v)) && allItems (noDupTags f t) v
+  | .optTail f, t, .some v => noDupTags f t v
+  | .tagged _ f, _, .pair (.nat x) v => noDupTags f x v
+  | .caseOf k f g, t, v => if t = k then noDupTags f t v else noDupTags g t v
+  | _, _, _ => true
+
 structure Msg where
   fmt : Fmt
   /-- the parser is handed exactly this structure: anything left over is an error -/
   exact : Bool := false
   post : Val → Bool := fun _ => true
 
-/-- what the real `parse` accepts: framing by `fmt`, then `post`; `exact` formats must use
+/-- what the real `parse` accepts: framing by `fmt`, then `post` and no repeated extension type; `exact` formats must use
     the whole input.  Returns the value and the number of bytes left unread. -/
 def Msg.decode (m : Msg) (b : Bytes) : Except Err (Val × Bytes) :=
   match Fmt.decode m.fmt 0 b with
   | .error e => .error e
   | .ok (v, r) =>
     if m.exact && !r.isEmpty then .error .trailing
-    else if m.post v then .ok (v, r) else .error .rejected
+    else if m.post v && noDupTags m.fmt 0 v then .ok (v, r) else .error .rejected
 
 def Msg.encode (m : Msg) (v : Val) : Option Bytes := Fmt.encode m.fmt 0 v
 
@@ -264,6 +296,10 @@ def allExtCls : List ExtCls :=
    .pskKeyExchangeModes, .signatureAlgorithmsCert, .clientKeyShare, .npn, .renegotiationInfo,
    .serverCertType, .srvPreSharedKey, .srvSupportedVersions, .serverKeyShare, .tack,
    .certificateStatus, .delegatedCredentialCert, .hrrKeyShare]
+
+def isFail : Fmt → Bool
+  | .fail => true
+  | _ => false
 
 def extCtx? : String → Option ExtCtx
   | "plain" => some .plain | "server" => some .server | "hrr" => some .hrr | "cert" => some .cert
